@@ -71,3 +71,36 @@ package cli
 //@   noframe
 //@   ensures [C16.size] result1 == nil ==> len(result0) <= models.MaxSourceFileSize
 //@ axiom [walk] filepath.SkipDir != nil
+
+// ---- C10: reports do not depend on map iteration order or worker scheduling
+//@ func ComputeDiff
+//@   noframe
+//@   protocol-only C10
+//@   deterministic
+
+// The per-file workers run concurrently: anything they append to shared state is an unordered collection; index-addressed slots are not.
+//@ func RunScanParallel$1
+//@   noframe
+//@   protocol-only C10
+//@   concurrent
+//@   deterministic
+
+//@ func RunScanParallel
+//@   noframe
+//@   protocol-only C10
+//@   deterministic
+
+// RunScanLogic sorts the alerts; a sort of an unordered collection would need a total comparator.
+//@ func RunScanLogic$1
+//@   requires 0 <= i && i < len(*allAlerts) && 0 <= j && j < len(*allAlerts)
+//@   ensures result == (ite((*allAlerts)[i].MatchedFunction != (*allAlerts)[j].MatchedFunction, (*allAlerts)[i].MatchedFunction < (*allAlerts)[j].MatchedFunction, (*allAlerts)[i].SignatureName < (*allAlerts)[j].SignatureName))
+
+//@ func RunScanLogic
+//@   noframe
+//@   protocol-only C10
+//@   deterministic
+
+//@ func RunScanDeps
+//@   noframe
+//@   protocol-only C10
+//@   deterministic
